@@ -38,12 +38,37 @@ def column_slice(cols, roles, depth, hist):
     return items
 
 
-def _check(part, hist, ops, data, bname, res, ordered):
+def column_order_request(hist):
+    """(is the column order defined?, the order the history asks for or None = the declared one)"""
+    steps = list(hist["steps"])
+    while steps and steps[-1]["op"] in ("order_rows", "select_rows"):
+        steps.pop()
+    if not steps:
+        return True, None
+    if steps[-1]["op"] == "select_columns":
+        return True, list(steps[-1]["columns"])
+    return False, None
+
+
+def order_request_key(hist):
+    import json
+
+    return json.dumps(column_order_request(hist))
+
+
+def _check(part, hist, ops, data, bname, res, ordered, requested=None):
     if res[0] != "ok":
         part.count("raised:" + bname)
         return
     part.count("returned:" + bname)
     want = list(ops.column_names)
+    if requested is not None and list(requested) != want and set(requested) == set(want):
+        # the pipeline declares another order than the select_columns step asked for
+        part.violation(
+            {"history": hist, "data": data, "backend": bname, "declared": want, "requested": list(requested)},
+            f"{bname}: the pipeline declares the columns in another order than its select_columns step asked for: {H.short(hist)} declared={want} requested={list(requested)}",
+        )
+        return
     got = list(res[1])
     part.outcome((bname, tuple(got) == tuple(want)))
     bad = None
@@ -71,10 +96,7 @@ def work(hists, cfg, open_ids):
         last = hist["steps"][-1]["op"] if hist["steps"] else "table"
         # the column order is defined by a select_columns (or the table) and inherited through steps that
         # only filter or sort rows
-        tail = [st["op"] for st in hist["steps"]]
-        while tail and tail[-1] in ("order_rows", "select_rows"):
-            tail.pop()
-        ordered = (not tail) or tail[-1] == "select_columns"
+        ordered, requested = column_order_request(hist)
         g = backends.gen_sql(ops)
         gp = backends.gen_sql(ops, model=pg)
         tabs = H.hist_tables(hist)
@@ -84,11 +106,11 @@ def work(hists, cfg, open_ids):
         datas = datas + [{k: _with_extra(t) for k, t in dm.items()} for dm in (datas[0], datas[-1])]
         for data in datas:
             part.count("traces_validated_against_impl")
-            _check(part, hist, ops, data, "pandas", backends.run_pandas(ops, data), ordered)
-            _check(part, hist, ops, data, "polars_eager", backends.run_polars(ops, data, lazy=False), ordered)
-            _check(part, hist, ops, data, "polars_lazy", backends.run_polars(ops, data, lazy=True), ordered)
-            _check(part, hist, ops, data, "sqlite", backends.run_sql(g[1], data) if g[0] == "ok" else g, ordered)
-            _check(part, hist, ops, data, "pgtext@sqlite", backends.run_sql(gp[1], data) if gp[0] == "ok" else gp, ordered)
+            _check(part, hist, ops, data, "pandas", backends.run_pandas(ops, data), ordered, requested)
+            _check(part, hist, ops, data, "polars_eager", backends.run_polars(ops, data, lazy=False), ordered, requested)
+            _check(part, hist, ops, data, "polars_lazy", backends.run_polars(ops, data, lazy=True), ordered, requested)
+            _check(part, hist, ops, data, "sqlite", backends.run_sql(g[1], data) if g[0] == "ok" else g, ordered, requested)
+            _check(part, hist, ops, data, "pgtext@sqlite", backends.run_sql(gp[1], data) if gp[0] == "ok" else gp, ordered, requested)
         part.sample({"history": H.short(hist), "declared": list(ops.column_names)}, limit=1)
     return part.dump()
 
@@ -96,13 +118,13 @@ def work(hists, cfg, open_ids):
 def run(tier):
     cfg = tier_cfg(tier)
     run = core.Run(PROP, tier)
-    ex = explorer.Explorer(menus.core_menu_q if tier == "quick" else menus.core_menu)
+    ex = explorer.Explorer(menus.core_menu_q if tier == "quick" else menus.core_menu, key_extra=order_request_key)
     states = ex.run(cfg["depth"])
     hists = [s.hist for s in states]
     st = ex.stats()
     extra = {"core_states": st["states"]}
     if cfg["slice_depth"]:
-        ex2 = explorer.Explorer(column_slice)
+        ex2 = explorer.Explorer(column_slice, key_extra=order_request_key)
         st2 = ex2.run(cfg["slice_depth"])
         seen = {s.key for s in states}
         add = [s.hist for s in st2 if s.key not in seen]
